@@ -209,7 +209,7 @@ class ListDom:
 
 def _h04a_inputs(tier):
     fixed = {0: 5, 11: 0}
-    return dict(buffer=BytesDom(NBYTES, fixed=fixed), cell_type=Cases(CELL_TYPES), max_fields=Cases([3 if tier == "quick" else 6]))
+    return dict(buffer=BytesDom(NBYTES, fixed=fixed), cell_type=Cases(CELL_TYPES), max_fields=Cases([3 if tier == "quick" else 4]))
 
 
 def _fix_type(buffer, cell_type):
@@ -219,7 +219,7 @@ def _fix_type(buffer, cell_type):
 HARNESSES = [
     Harness("H04a", h04a_decode_vs_layout, _h04a_inputs,
             bounds="116 symbolic record bytes (version 5); cell type one of the 9 readable kinds; flags = any subset of "
-                   "the 21 documented bits with <= 3 (quick) / <= 6 (thorough) fields present, plus the all-ones word",
+                   "the 21 documented bits with <= 3 (quick) / <= 4 (thorough) fields present, plus the all-ones word",
             outside=["flag words with more optional fields present than the bound (except all 21)",
                      "decimal128 exponents outside [-32, 95] and non-finite / huge date and duration payloads"],
             stubs=["model stub: merge_cells / table_string / table_rich_text return tagged keys",
